@@ -165,7 +165,7 @@ def gen(seed, tier="quick"):
         for _ in range(r.randint(1, 12)):
             att = r.choice([1, 2, 3, 8, 20, 64, 100, 1023, 1024, 1025, 1750, 1751, 1752, 5000, 10**6, r.randint(1, 4000)])
             prev = r.choice([None, 0.0, 0.001, 1.0, 30.0, 1e6, 1e100, 1e308, r.uniform(0, 100)])
-            rem = r.choice([None, 0.001, 1.0, 60.0, 1e9])
+            rem = r.choice([None, 0.001, 1.0, 60.0, 1e9, 0.0, 0])
             calls.append([att, prev, rem])
         scn["calls"] = calls
     return scn
